@@ -212,7 +212,7 @@ func (sm *Subscriptions) gcWhenBinding(binding *WhenBinding, gcCtx bool) {
 
 		// delete state index
 		names = append(names, state)
-		if len(sm.when[state]) == 1 {
+		if len(sm.when[state]) == 1 && sm.when[state][0] == binding {
 			delete(sm.when, state)
 			continue
 		}
@@ -318,7 +318,7 @@ func (sm *Subscriptions) gcWhenTimeBinding(
 
 		// remove state index
 		names = append(names, state)
-		if len(sm.whenTime[state]) == 1 {
+		if len(sm.whenTime[state]) == 1 && sm.whenTime[state][0] == binding {
 			delete(sm.whenTime, state)
 			continue
 		}
@@ -615,10 +615,9 @@ func (sm *Subscriptions) When(states S, ctx context.Context) <-chan struct{} {
 	// insert the binding
 	for _, s := range states {
 		sm.when[s] = append(sm.when[s], binding)
-
-		if ctx != nil {
-			sm.whenCtx[ctx] = append(sm.whenCtx[ctx], binding)
-		}
+	}
+	if ctx != nil {
+		sm.whenCtx[ctx] = append(sm.whenCtx[ctx], binding)
 	}
 
 	return ch
